@@ -79,9 +79,14 @@ def file_monitor(inst, exp, rr, pre_content=None):
     snap = rr.snapshot
     ids = set(final_ids(snap))
     pre = set(ninst["pre"])
+    split_n = ([int(p.get("arg") or 1) for p in ninst["procs"] if p["kind"] == "splitter"] or [1])[0]
     def content_of(i):
         p = "o/%s.txt" % i
         if p in snap: return snap[p].get("text") or ""
+        m = re.match(r"(.+)\.txt\.split_(\d+)$", i)
+        if m:      # part k of a split file: its k-th group of split_n lines
+            lines, k = content_of(m.group(1)).splitlines(True), int(m.group(2))
+            return "".join(lines[(k - 1) * split_n:k * split_n])
         if i in exp_by_out and i in exp_by_out[i].get("streams", []):
             return expected_content(i, exp_by_out, content_of)      # streamed through a FIFO: never on disk
         p = "in/%s.txt" % i
